@@ -9,10 +9,20 @@
     C02_xmlid             normalize_xml_id = strip all leading / trailing spaces + collapse runs
     C02_xmlid_expanded    an attribute whose EXPANDED name is xml:id is stored (node, seen ids, id
                           index) normalised whatever prefix spells it; _only: no other attribute is;
-                          _spelled: the same on spellings (feeds C02_spelled_ns_*)
+                          _spelled: the same on spellings (feeds C02_spelled_ns_*).  Since /repo 5298f5f
+                          only the prefix `xml` can be bound to the XML namespace, so the parser reaches
+                          them through `xml:id` alone (closed example: another prefix is refused)
     C02_cdata_line_ends   a CDATA part contributes its content with CR LF / CR turned into LF
     C02_empty_cdata       an empty CDATA section changes nothing at all
-    C02_namespace_uri     a declaration registers the DECODED attribute value as namespace
+    C02_namespace_uri     a declaration that is not reserved registers the DECODED attribute value as
+                          namespace; C02_namespace_reserved: a reserved one (`C02_reserved_iff`: prefix
+                          `xmlns`, another prefix than `xml` for the XML namespace name, anything for the
+                          xmlns namespace name, `xmlns:p=""`; tested on the decoded value) is refused with
+                          InvalidNamespaceDeclaration(name as written, name span), nothing interned;
+                          C02_reserved_not_well: no well-formed spelling contains one.  `xmlns:xml='zzz'`
+                          is still accepted (known finding C03:xml-prefix-rebound-accepted)
+    C02_pi_target_xml     a processing instruction whose target is `xml` in any letter case is refused
+                          with InvalidTarget(target, target span) (/repo dd2a136)
     C02_local_xmlns       only an unprefixed `xmlns` (or the `xmlns:` prefix) is a declaration
     C02_merge, C02_scope_nearest / _base / _unprefixed_attribute   builder-side pieces of merging
                           and XML-Namespaces scoping
@@ -28,7 +38,9 @@
                           spelling with prefixes and namespace declarations (`NSNode`) that the builder's
                           rules admit (`WellNsDoc`), `parse_fragment` / `parse` on its tokens yields a tree
                           that reads back (`decodeNs`) as exactly the abstract document with expanded
-                          names, declarations and attributes that XML-Namespaces scoping gives (`denote`)
+                          names, declarations and attributes that XML-Namespaces scoping gives (`denote`;
+                          comment text and PI data with line ends normalised).  `WellNsDoc` / `Well` now
+                          exclude reserved declarations and the PI target `xml`
     C02_fragment_spelled_ns   the same relation between parse_fragment(t) and parse(<w>t</w>) with namespaces
     C02_positions_irrelevant  byte positions and whole-token spans of the tokens do not influence the
                           tree, the interning tables or the id map a parse returns, nor whether it fails
@@ -39,8 +51,10 @@
                           before `>` / `/>`, in end tags, in PIs, between and after the top-level items,
                           XML declaration (any layout, version 1.0) or not, BOM or not — `parse` /
                           `parse_fragment` of the TEXT returns exactly the denoted document
-    C02_lexical_line_ends line ends inside tags are white space; C02_comment_line_ends_kept: in comments
-                          and PIs they are kept verbatim (XML 1.0 2.11 asks for LF: reported finding)
+    C02_lexical_line_ends line ends inside tags are white space
+    C02_comment_line_ends_normalised   in every builder state a comment token / a PI token adds a node
+                          whose text / data is the token's with CR LF and lone CR turned into LF (XML 1.0
+                          2.11; /repo d3bd04e), so it holds no CR and is the text as written when that has none
   Closed examples (token lists of the real tokenizer, replayed on the implementation by the
   `build` suite) accompany each of them.
 -/
@@ -54,6 +68,8 @@ import XotModel.Lemmas.ParseNsCheck
 import XotModel.Lemmas.ParseErase
 import XotModel.Lemmas.LexFreeBuild
 import XotModel.Lemmas.LexFreeExample
+import XotModel.Lemmas.C02Spellings
+import XotModel.Lemmas.LineEnds
 
 namespace XotModel.Props
 open XotModel XotModel.Witness
@@ -97,7 +113,10 @@ example : (build .document idSpacesLen Env.fresh idSpaces none).flat =
 
 /-- C02_xmlid_expanded, builder level: an attribute whose name RESOLVES to the name id of xml:id
     — expanded name (XML namespace, `id`), whatever prefix is written — is stored normalised:
-    attribute node, `seen_ids` and the `xml_id_node` index all get `normalize_xml_id(value)`. -/
+    attribute node, `seen_ids` and the `xml_id_node` index all get `normalize_xml_id(value)`.
+    (Since /repo 5298f5f `DocumentBuilder::prefix` refuses to bind another prefix than `xml` to the
+    XML namespace, so from a parse the hypothesis is met by `xml:id` only; the statement itself does
+    not depend on that.) -/
 theorem C02_xmlid_expanded (stack : NsStack) (node : Path) (st : AttrLoop) (ab : AttributeBuilder)
     (rest : List AttributeBuilder) (env1 : Env)
     (hname : attributeNameId st.env stack ab.pfx ab.name ab.prefixSpan = .ok (env1, Env.xmlIdName))
@@ -139,10 +158,11 @@ theorem C02_xmlid_expanded_spelled (scope : Scope) (a : NSAttr) (hp : scope.attr
     a.denote scope = ((xmlNsUri, ['i', 'd']), xmlIdSpec (valueOf true a.pieces)) := by
   simp only [NSAttr.denote, NSAttr.value, hp, hl, BEq.rfl, if_true, normalizeXmlId_spec]
 
-/-- `<a xmlns:p='http://www.w3.org/XML/1998/namespace' p:id='  x   y '/>`: the attribute node
-    carries `x y` under the name id of xml:id (1); namespace node `p` (prefix id 2) ↦ XML namespace (1). -/
-example : (build .document idViaOtherPrefixLen Env.fresh idViaOtherPrefix none).flat =
-    some [(0, .document), (1, .element 2), (2, .namespace 2 1), (2, .attribute 1 ['x', ' ', 'y'])] := by
+/-- `<a xmlns:p='http://www.w3.org/XML/1998/namespace' p:id='  x   y '/>`, an xml:id written through
+    another prefix: refused at the declaration (span of the name `xmlns:p`), see `C02_namespace_reserved`.
+    Through the prefix `xml` itself: the example after `C02_xmlid` and `spelledTwinExample` below. -/
+example : (build .document idViaOtherPrefixLen Env.fresh idViaOtherPrefix none).err? =
+    some (.invalidNamespaceDeclaration ['x', 'm', 'l', 'n', 's', ':', 'p'] ⟨3, 10⟩) := by
   rw [build_eq_buildE]; decide +kernel
 
 /-! ### CDATA -/
@@ -177,9 +197,11 @@ example : (build .document emptyCdataLen Env.fresh emptyCdata none).flat =
 /-! ### Namespace declarations -/
 
 /-- C02_namespace_uri: the namespace a declaration binds is the DECODED attribute value
-    (`parse_attribute(value, value.start())`), registered after the prefix. -/
+    (`parse_attribute(value, value.start())`), registered after the prefix — unless the declaration
+    is a reserved one (`C02_namespace_reserved`). -/
 theorem C02_namespace_uri (b : Builder) (eb : ElementBuilder) (pfx : Str) (uri : StrSpan) (sp : Span) (u : Str)
     (heb : b.eb = some eb) (hdec : parseContentGo true uri.start 0 uri.text = .ok u)
+    (hres : reservedDecl pfx u = false)
     (hnew : (eb.namespaces.any fun d => d.1 == (b.env.internPrefix pfx).2) = false) :
     b.prefix pfx uri sp = .ok { b with
       env := ((b.env.internPrefix pfx).1.internNamespace u).1,
@@ -187,7 +209,35 @@ theorem C02_namespace_uri (b : Builder) (eb : ElementBuilder) (pfx : Str) (uri :
         [((b.env.internPrefix pfx).2, ((b.env.internPrefix pfx).1.internNamespace u).2)] } } := by
   unfold Builder.prefix
   rw [hdec]
-  simp only [heb, hnew, Bool.false_eq_true, if_false]
+  simp only [hres, heb, hnew, Bool.false_eq_true, if_false]
+
+/-- C02_namespace_reserved: a reserved declaration — judged on the prefix as written and the DECODED
+    value — is refused with `InvalidNamespaceDeclaration` (the attribute name as written, its span);
+    nothing is interned, whatever the builder state. -/
+theorem C02_namespace_reserved (b : Builder) (pfx : Str) (uri : StrSpan) (sp : Span) (u : Str)
+    (hdec : parseContentGo true uri.start 0 uri.text = .ok u) (hres : reservedDecl pfx u = true) :
+    b.prefix pfx uri sp = .err (.invalidNamespaceDeclaration (declDisplayName pfx) sp) b.env := by
+  unfold Builder.prefix
+  rw [hdec]
+  simp only [hres, if_true]
+
+/-- C02_reserved_iff: which declarations are reserved (Namespaces in XML 1.0, sections 3 and 2.2 /
+    errata NE05): the prefix `xmlns`; the XML namespace name for another prefix than `xml` (the
+    default namespace included); the xmlns namespace name for anything; the empty URI for a
+    non-empty prefix other than `xml`.  (`xmlns:xml` with ANY value is not: known finding.) -/
+theorem C02_reserved_iff (pfx uri : Str) :
+    reservedDecl pfx uri = true ↔
+      pfx = ['x', 'm', 'l', 'n', 's'] ∨ (pfx ≠ ['x', 'm', 'l'] ∧ uri = xmlNamespaceUri) ∨ uri = xmlnsNamespaceUri ∨
+      (pfx ≠ [] ∧ pfx ≠ ['x', 'm', 'l'] ∧ uri = []) := by
+  simp only [reservedDecl, Bool.or_eq_true, Bool.and_eq_true, beq_iff_eq, bne_iff_ne, ne_eq,
+    Bool.not_eq_true', List.isEmpty_iff, or_assoc]
+  constructor <;> intro h <;> rcases h with h | h | h | h <;> simp_all
+
+/-- C02_reserved_not_well: a start tag with a reserved declaration is not a well-formed spelling
+    (the second clause of `attrsWellNs`), in any scope. -/
+theorem C02_reserved_not_well {scope : Scope} {attrs : List NSAttr} (d : Str × Str) (hd : d ∈ declsOf attrs)
+    (hres : reservedDecl d.1 d.2 = true) : ¬ attrsWellNs scope attrs :=
+  fun h => absurd (h.2.1 d hd) (by simp [hres])
 
 /-- `<a xmlns:p='x&amp;y'/>`: the namespace registered is `x&y`. -/
 example : (build .document uriRefLen Env.fresh uriRef none).namespaces.getLast? = some ['x', '&', 'y'] := by
